@@ -135,6 +135,10 @@ type Env struct {
 	NextMapKey func(loop int, remaining []reflect.Value) (reflect.Value, bool)
 	// MaxLoop is the for-loop iteration cut-off (C09); 0 = none.
 	MaxLoop int
+	// Note, if set, is told about interesting control-flow events (classification only).
+	Note      func(string)
+	loopDepth int
+	blkDepth  int
 	// OnBin, if set, observes the operand values of every arithmetic / comparison.
 	OnBin func(op string, l, r Val)
 }
@@ -146,6 +150,8 @@ func NewEnv(inj map[string]interface{}, r *dsl.Rule) *Env {
 	}
 	return e
 }
+
+func (e *Env) isInjected(name string) bool { _, ok := e.Inj[name]; return ok }
 
 func (e *Env) unspecified(why string) {
 	if e.Unspecified == "" {
@@ -904,18 +910,32 @@ func (e *Env) Run() Outcome {
 	return Outcome{}
 }
 
+func (e *Env) note(s string) {
+	if e.Note != nil {
+		e.Note(s)
+	}
+}
+
 func (e *Env) block(b *dsl.Block) (int, Val, *Err) {
 	if b == nil {
 		return ctlNone, Val{}, nil
 	}
-	for _, s := range b.Stmts {
+	e.blkDepth++
+	defer func() { e.blkDepth-- }()
+	for i, s := range b.Stmts {
 		ctl, v, err := e.stmt(s)
 		if err != nil {
 			return ctlNone, Val{}, err
 		}
 		if ctl != ctlNone {
+			if ctl == ctlReturn && (i < len(b.Stmts)-1 || b.HasRet) {
+				e.note("return-skips-later-statements")
+			}
 			return ctl, v, nil
 		}
+	}
+	if b.HasRet && e.blkDepth >= 3 {
+		e.note("return-from-depth>=2")
 	}
 	if b.HasRet {
 		if b.Ret == nil {
@@ -975,10 +995,15 @@ func (e *Env) stmt(s *dsl.Stmt) (int, Val, *Err) {
 				return ctlNone, Val{}, err
 			}
 			if c {
+				e.note("else-if-branch-taken")
+				if i < len(s.ElseIfs)-1 || s.Else != nil {
+					e.note("else-if-taken-with-later-branches")
+				}
 				return e.block(s.ElseIfs[i].Body)
 			}
 		}
 		if s.Else != nil {
+			e.note("else-branch-taken")
 			return e.block(s.Else)
 		}
 		return ctlNone, Val{}, nil
@@ -999,15 +1024,23 @@ func (e *Env) stmt(s *dsl.Stmt) (int, Val, *Err) {
 			if !c {
 				return ctlNone, Val{}, nil
 			}
+			e.loopDepth++
 			ctl, v, err := e.block(s.Body)
+			e.loopDepth--
 			if err != nil {
 				return ctlNone, Val{}, err
 			}
 			if ctl == ctlBreak {
+				if e.loopDepth > 0 {
+					e.note("break-in-inner-loop")
+				}
 				return ctlNone, Val{}, nil
 			}
 			if ctl == ctlReturn {
 				return ctl, v, nil
+			}
+			if ctl == ctlContinue {
+				e.note("continue-in-for")
 			}
 			if err := e.assign(s.Step); err != nil {
 				return ctlNone, Val{}, err
@@ -1052,15 +1085,23 @@ func (e *Env) stmt(s *dsl.Stmt) (int, Val, *Err) {
 			if err := e.setSimple(s.KeyVar, FromReflect(k)); err != nil {
 				return ctlNone, Val{}, err
 			}
+			e.loopDepth++
 			ctl, v, err := e.block(s.Body)
+			e.loopDepth--
 			if err != nil {
 				return ctlNone, Val{}, err
 			}
 			if ctl == ctlBreak {
+				if e.loopDepth > 0 {
+					e.note("break-in-inner-loop")
+				}
 				return ctlNone, Val{}, nil
 			}
 			if ctl == ctlReturn {
 				return ctl, v, nil
+			}
+			if ctl == ctlContinue {
+				e.note("continue-in-forrange")
 			}
 		}
 		return ctlNone, Val{}, nil
@@ -1104,6 +1145,9 @@ func (e *Env) assign(s *dsl.Stmt) *Err {
 		return errf("unspec", "no value")
 	}
 	t := s.Target
+	if s.AOp != "=" && s.AOp != ":=" && (t.K == dsl.KIndex || strings.Contains(t.Name, ".") || e.isInjected(t.Name)) {
+		e.note("compound-assignment-on-injected-target")
+	}
 	if t.K == dsl.KIndex {
 		return e.setIndex(t, v)
 	}
